@@ -35,8 +35,8 @@ def place(kind, pos, required=True, version="3.1.0", prop_name="p", op_id="theOp
     elif pos == "addl":
         comps["M"] = {"type": "object", "additionalProperties": sch}
     elif pos == "allof":
-        comps["P"] = model(sch)
-        comps["M"] = {"allOf": [{"$ref": "#/components/schemas/P"}, {"type": "object", "properties": {"w": {"type": "string"}}}]}
+        comps["Parent"] = model(sch)
+        comps["M"] = {"allOf": [{"$ref": "#/components/schemas/Parent"}, {"type": "object", "properties": {"w": {"type": "string"}}}]}
     elif pos in ("query", "header", "cookie", "path"):
         path = "/x/{" + prop_name + "}" if pos == "path" else "/x"
         paths[path] = {"get": {"operationId": op_id, "parameters": [
